@@ -1,7 +1,16 @@
 import GoRes.Model.Diff
-/-! Helper lemmas for the diff model (C10): alignment scripts (`keep/add/rem`) and the two
-list lemmas behind the edit-script theorem (descending removals = filtering, ascending
-insertions rebuild the target). -/
+/-! Helper lemmas for the diff model (C10).
+
+* `Script`: alignment scripts (`keep/add/rem`) and the two list lemmas behind the edit-script
+  theorem (descending removals = filtering, ascending insertions rebuild the target).
+* association-list models: `mget` after `mset`/`mdel`/`applyChange`, membership in `modelDiff`.
+* `commonPrefix` facts and `trim_decomp` (prefix/suffix trimming splits both lists as
+  `p ++ · ++ q` with the same `p`, `q`).
+* `applyAll_script`: a script's removals (descending) then additions (ascending), as client
+  events *with range checks*, take `p ++ src ops ++ q` to `p ++ tgt ops ++ q`.
+* `WInv`/`walk_inv`: the backtracking loop implicitly builds an alignment script, whatever the
+  table says; `addEvs_eq`/`walk_events`: the emitted events are exactly that script's events
+  (the final add index `idx - rems + r + l - i` collapses to `s + bn`). -/
 namespace GoRes.Diff.Script
 
 inductive Op (α : Type) | keep (x : α) | add (y : α) | rem (x : α)
@@ -113,3 +122,543 @@ theorem script_correct (ops : List (Op α)) :
   rw [erase_desc, insert_asc]
 
 end GoRes.Diff.Script
+
+/-! ## association-list models -/
+namespace GoRes.Diff
+variable {α : Type}
+
+theorem mget_cons (e : Str × α) (m : Model α) (k : Str) :
+    mget (e :: m) k = if e.1 = k then some e.2 else mget m k := by
+  unfold mget; simp only [List.find?_cons]
+  by_cases h : e.1 = k
+  · simp [h]
+  · have : (e.1 == k) = false := by simpa using h
+    simp [h, this]
+
+theorem mget_eq_none_iff (m : Model α) (k : Str) : mget m k = none ↔ ∀ e ∈ m, e.1 ≠ k := by
+  induction m with
+  | nil => simp [mget]
+  | cons e m ih => rw [mget_cons]; by_cases h : e.1 = k <;> simp [h, ih]
+
+theorem mem_of_mget (m : Model α) (k : Str) (v : α) (h : mget m k = some v) : (k, v) ∈ m := by
+  induction m with
+  | nil => simp [mget] at h
+  | cons e m ih =>
+    rw [mget_cons] at h
+    by_cases hk : e.1 = k
+    · simp [hk] at h; subst hk; subst h; simp
+    · simp [hk] at h; exact List.mem_cons_of_mem _ (ih h)
+
+theorem mget_of_mem (m : Model α) (hn : (m.map (·.1)).Nodup) (k : Str) (v : α) (h : (k, v) ∈ m) :
+    mget m k = some v := by
+  induction m with
+  | nil => simp at h
+  | cons e m ih =>
+    rw [mget_cons]
+    simp only [List.map_cons, List.nodup_cons] at hn
+    rcases List.mem_cons.1 h with h | h
+    · subst h; simp
+    · have : e.1 ≠ k := by
+        intro he; apply hn.1; rw [he]; exact List.mem_map.2 ⟨_, h, rfl⟩
+      simp [this]; exact ih hn.2 h
+
+theorem mget_map_set (m : Model α) (k k' : Str) (v : α) :
+    mget (m.map (fun e => if e.1 == k then (k, v) else e)) k' =
+      if k' = k then (mget m k).map (fun _ => v) else mget m k' := by
+  induction m with
+  | nil => simp [mget]
+  | cons e m ih =>
+    simp only [List.map_cons, mget_cons, ih]
+    by_cases he : e.1 = k
+    · by_cases hk : k' = k
+      · simp [he, hk]
+      · have : ¬ k = k' := fun h => hk h.symm
+        simp [he, hk, this]
+    · have h2 : (e.1 == k) = false := by simpa using he
+      by_cases hk : k' = k
+      · subst hk; simp [he, h2]
+      · simp [h2, hk]
+
+theorem any_key_iff (m : Model α) (k : Str) : m.any (·.1 == k) = true ↔ mget m k ≠ none := by
+  rw [Ne, mget_eq_none_iff]; simp
+
+theorem mget_mset (m : Model α) (k k' : Str) (v : α) :
+    mget (mset m k v) k' = if k' = k then some v else mget m k' := by
+  unfold mset
+  split
+  · rename_i h
+    rw [mget_map_set]
+    rw [any_key_iff] at h
+    by_cases hk : k' = k
+    · simp only [hk, if_true]
+      cases hm : mget m k with
+      | none => exact absurd hm h
+      | some x => rfl
+    · simp [hk]
+  · rename_i h
+    rw [any_key_iff] at h
+    have h : mget m k = none := by simpa using h
+    by_cases hk : k' = k
+    · subst hk
+      unfold mget at h ⊢
+      simp only [Option.map_eq_none_iff] at h
+      simp [List.find?_append, h]
+    · have : ¬ k = k' := fun h => hk h.symm
+      unfold mget
+      simp [List.find?_append, hk, this]
+
+theorem mget_mdel (m : Model α) (k k' : Str) :
+    mget (mdel m k) k' = if k' = k then none else mget m k' := by
+  unfold mdel
+  induction m with
+  | nil => simp [mget]
+  | cons e m ih =>
+    simp only [List.filter_cons]
+    by_cases he : e.1 = k
+    · have : (e.1 != k) = false := by simp [he]
+      simp only [this, Bool.false_eq_true, if_false, ih, mget_cons]
+      by_cases hk : k' = k
+      · simp [hk]
+      · have : ¬ k = k' := fun h => hk h.symm
+        simp [hk, he, this]
+    · have : (e.1 != k) = true := by simpa using he
+      simp only [this, if_true, mget_cons, ih]
+      by_cases hk : k' = k
+      · subst hk; simp [he]
+      · simp [hk]
+
+
+theorem applyChange_cons (m : Model α) (e : Str × Option α) (ch : List (Str × Option α)) :
+    applyChange m (e :: ch) = applyChange (match e.2 with | some v => mset m e.1 v | none => mdel m e.1) ch := by
+  obtain ⟨k, v⟩ := e
+  cases v <;> rfl
+
+theorem mget_applyChange (after : Model α) (k : Str) (ch : List (Str × Option α))
+    (hc : ∀ e ∈ ch, e.2 = mget after e.1) (m : Model α)
+    (h : mget m k = mget after k ∨ ∃ e ∈ ch, e.1 = k) :
+    mget (applyChange m ch) k = mget after k := by
+  induction ch generalizing m with
+  | nil =>
+    rcases h with h | ⟨e, he, _⟩
+    · exact h
+    · simp at he
+  | cons e ch ih =>
+    rw [applyChange_cons]
+    apply ih (fun e' he' => hc e' (List.mem_cons_of_mem _ he'))
+    have hce := hc e List.mem_cons_self
+    by_cases hk : e.1 = k
+    · left
+      rw [← hk, ← hce]
+      cases e.2 with
+      | none => simp [mget_mdel]
+      | some v => simp [mget_mset]
+    · have hk' : ¬ k = e.1 := fun h => hk h.symm
+      have : mget (match e.2 with | some v => mset m e.1 v | none => mdel m e.1) k = mget m k := by
+        cases e.2 with
+        | none => simp [mget_mdel, hk']
+        | some v => simp [mget_mset, hk']
+      rw [this]
+      rcases h with h | ⟨e', he', hk2⟩
+      · exact Or.inl h
+      · right
+        rcases List.mem_cons.1 he' with h | h
+        · subst h; exact absurd hk2 hk
+        · exact ⟨e', h, hk2⟩
+
+section
+variable [DecidableEq α]
+
+theorem mem_modelDiff (before after : Model α) (k : Str) (v : Option α) :
+    (k, v) ∈ modelDiff before after ↔
+      (v = none ∧ (∃ x, (k, x) ∈ before) ∧ mget after k = none) ∨
+      (∃ x, v = some x ∧ (k, x) ∈ after ∧ mget before k ≠ some x) := by
+  unfold modelDiff
+  simp only [List.mem_append, List.mem_filterMap]
+  constructor
+  · rintro (⟨⟨k', x⟩, hm, h⟩ | ⟨⟨k', x⟩, hm, h⟩)
+    · left
+      simp only at h
+      split at h
+      · rename_i hn
+        simp only [Option.some.injEq, Prod.mk.injEq] at h
+        obtain ⟨rfl, rfl⟩ := h
+        exact ⟨rfl, ⟨x, hm⟩, by simpa using hn⟩
+      · simp at h
+    · right
+      simp only at h
+      split at h
+      · rename_i ov hov
+        split at h
+        · simp at h
+        · rename_i hne
+          simp only [Option.some.injEq, Prod.mk.injEq] at h
+          obtain ⟨rfl, rfl⟩ := h
+          refine ⟨x, rfl, hm, ?_⟩
+          rw [hov]; intro h; injection h with h; exact hne h.symm
+      · rename_i hov
+        simp only [Option.some.injEq, Prod.mk.injEq] at h
+        obtain ⟨rfl, rfl⟩ := h
+        exact ⟨x, rfl, hm, by rw [hov]; simp⟩
+  · rintro (⟨rfl, ⟨x, hm⟩, hn⟩ | ⟨x, rfl, hm, hne⟩)
+    · left
+      exact ⟨(k, x), hm, by simp [hn]⟩
+    · right
+      refine ⟨(k, x), hm, ?_⟩
+      simp only
+      split
+      · rename_i ov hov
+        have : ¬ x = ov := by intro h; subst h; exact hne hov
+        simp [this]
+      · rfl
+
+
+/-! ## collectionDiff: common prefix -/
+
+
+theorem commonPrefix_self (a : List α) : commonPrefix a a = a.length := by
+  induction a with
+  | nil => rfl
+  | cons x xs ih => simp [commonPrefix, ih]
+
+theorem commonPrefix_le_left (a b : List α) : commonPrefix a b ≤ a.length := by
+  induction a generalizing b with
+  | nil => simp [commonPrefix]
+  | cons x xs ih =>
+    cases b with
+    | nil => simp [commonPrefix]
+    | cons y ys =>
+      simp only [commonPrefix]; split
+      · simp; exact ih ys
+      · simp
+
+theorem commonPrefix_le_right (a b : List α) : commonPrefix a b ≤ b.length := by
+  induction a generalizing b with
+  | nil => simp [commonPrefix]
+  | cons x xs ih =>
+    cases b with
+    | nil => simp [commonPrefix]
+    | cons y ys =>
+      simp only [commonPrefix]; split
+      · simp; exact ih ys
+      · simp
+
+theorem take_commonPrefix (a b : List α) :
+    a.take (commonPrefix a b) = b.take (commonPrefix a b) := by
+  induction a generalizing b with
+  | nil => simp [commonPrefix]
+  | cons x xs ih =>
+    cases b with
+    | nil => simp [commonPrefix]
+    | cons y ys =>
+      simp only [commonPrefix]; split
+      · rename_i h; subst h; simp [ih ys]
+      · simp
+
+end
+
+/-! ## alignment scripts as event lists, with the client's range checks -/
+section
+open Script
+
+theorem applyAll_append (l : List α) (e1 e2 : List (Ev α)) :
+    applyAll l (e1 ++ e2) = (applyAll l e1).bind (applyAll · e2) := by
+  induction e1 generalizing l with
+  | nil => simp [applyAll]
+  | cons e es ih =>
+    simp only [List.cons_append, applyAll]
+    cases applyEv l e with
+    | none => rfl
+    | some l' => simp [ih]
+
+theorem applyEv_remove_mid (p q : List α) (x : α) :
+    applyEv (p ++ x :: q) (.remove (p.length : Int)) = some (p ++ q) := by
+  have : (p ++ x :: q).eraseIdx p.length = p ++ q := by
+    rw [List.eraseIdx_append_of_length_le (Nat.le_refl _)]; simp
+  simp [applyEv, this]
+
+theorem applyEv_add_mid (p q : List α) (y : α) :
+    applyEv (p ++ q) (.add y (p.length : Int)) = some (p ++ y :: q) := by
+  have : (p ++ q).insertIdx p.length y = p ++ y :: q := by
+    induction p with
+    | nil => simp
+    | cons a p ih => simp [ih]
+  simp [applyEv, this]
+
+/-- removing the `rem` positions in descending order, *with range checks*, inside a context -/
+theorem applyAll_removes (ops : List (Op α)) (p q : List α) :
+    applyAll (p ++ src ops ++ q) ((remPos ops p.length).reverse.map (fun (i : Nat) => Ev.remove (i : Int)))
+      = some (p ++ keeps ops ++ q) := by
+  induction ops generalizing p with
+  | nil => simp [src, remPos, keeps, applyAll]
+  | cons o r ih =>
+    cases o with
+    | keep x =>
+      simp only [src, remPos, keeps]
+      have := ih (p ++ [x])
+      simpa using this
+    | add y =>
+      simp only [src, remPos, keeps]; exact ih p
+    | rem x =>
+      simp only [src, remPos, keeps, List.reverse_cons, List.map_append, applyAll_append]
+      have := ih (p ++ [x])
+      simp only [List.length_append, List.length_singleton, List.append_assoc, List.nil_append,
+        List.cons_append] at this
+      simp only [List.append_assoc, List.cons_append]
+      rw [this]
+      simp only [Option.bind_some, List.map_cons, List.map_nil, applyAll]
+      rw [applyEv_remove_mid]; rfl
+
+/-- inserting the added elements at their target positions in ascending order, *with range checks* -/
+theorem applyAll_adds (ops : List (Op α)) (p q : List α) :
+    applyAll (p ++ keeps ops ++ q) ((addPos ops p.length).map (fun (v : α × Nat) => Ev.add v.1 (v.2 : Int)))
+      = some (p ++ tgt ops ++ q) := by
+  induction ops generalizing p with
+  | nil => simp [tgt, addPos, keeps, applyAll]
+  | cons o r ih =>
+    cases o with
+    | keep x =>
+      simp only [tgt, addPos, keeps]
+      have := ih (p ++ [x])
+      simpa using this
+    | rem y =>
+      simp only [tgt, addPos, keeps]; exact ih p
+    | add y =>
+      simp only [tgt, addPos, keeps, List.map_cons, applyAll, List.append_assoc]
+      rw [applyEv_add_mid]
+      have := ih (p ++ [y])
+      simp only [List.length_append, List.length_singleton, List.append_assoc, List.nil_append,
+        List.cons_append] at this
+      simp only [Option.bind_some, List.cons_append]
+      exact this
+
+theorem applyAll_script (ops : List (Op α)) (p q : List α) :
+    applyAll (p ++ src ops ++ q)
+      ((remPos ops p.length).reverse.map (fun (i : Nat) => Ev.remove (i : Int)) ++
+        (addPos ops p.length).map (fun (v : α × Nat) => Ev.add v.1 (v.2 : Int)))
+      = some (p ++ tgt ops ++ q) := by
+  rw [applyAll_append, applyAll_removes, Option.bind_some, applyAll_adds]
+
+end
+
+/-! ## the backtracking loop builds an alignment script -/
+section
+open Script
+variable [Inhabited α]
+
+theorem drop_pred_eq (l : List α) (i : Nat) (h0 : 0 < i) (hi : i ≤ l.length) :
+    l.drop (i - 1) = l[i - 1]! :: l.drop i := by
+  have h : i - 1 < l.length := by omega
+  rw [List.drop_eq_getElem_cons h]
+  have : i - 1 + 1 = i := by omega
+  rw [this, getElem!_pos l (i-1) h]
+
+/-- invariant of the backtracking loop: `acc` is the alignment script of `aa[i..]` against
+`bb[j..]` that the loop has implicitly built so far -/
+structure WInv (aa bb : List α) (s i j : Nat) (idx : Int) (st : Walk) (acc : List (Op α)) : Prop where
+  hi : i ≤ aa.length
+  hj : j ≤ bb.length
+  hsrc : src acc = aa.drop i
+  htgt : tgt acc = bb.drop j
+  hidx : idx = ((s + i : Nat) : Int)
+  hrem : st.removes = (remPos acc (s + i)).reverse.map (fun (p : Nat) => (p : Int))
+  hrems : st.rems = (st.removes.length : Int)
+  hadd : st.adds.reverse.map (fun r => (bb[r.1]!, s + r.1)) = addPos acc (s + j)
+  hrec : ∀ k (h : k < st.adds.length),
+    st.adds[k].2.1 + st.adds[k].2.2 - (k : Int) - (st.adds[k].1 : Int)
+      = (s : Int) + aa.length - bb.length + 1
+  hQ : (i : Int) - j - st.adds.length + st.rems = (aa.length : Int) - bb.length
+
+theorem WInv.init (aa bb : List α) (s : Nat) :
+    WInv aa bb s aa.length bb.length ((aa.length + s : Nat) : Int) {} [] where
+  hi := Nat.le_refl _
+  hj := Nat.le_refl _
+  hsrc := by simp [src]
+  htgt := by simp [tgt]
+  hidx := by omega
+  hrem := by simp [remPos]
+  hrems := by simp
+  hadd := by simp [addPos]
+  hrec := by intro k h; simp at h
+  hQ := by simp
+
+theorem WInv.keep {aa bb : List α} {s i j : Nat} {idx : Int} {st : Walk} {acc : List (Op α)}
+    (h : WInv aa bb s i j idx st acc) (hi0 : 0 < i) (hj0 : 0 < j) (heq : aa[i-1]! = bb[j-1]!) :
+    WInv aa bb s (i-1) (j-1) (idx-1) st (.keep aa[i-1]! :: acc) where
+  hi := by have := h.hi; omega
+  hj := by have := h.hj; omega
+  hsrc := by rw [drop_pred_eq aa i hi0 h.hi, src, h.hsrc]
+  htgt := by rw [drop_pred_eq bb j hj0 h.hj, tgt, h.htgt, heq]
+  hidx := by have := h.hidx; omega
+  hrem := by
+    have : s + (i - 1) + 1 = s + i := by omega
+    rw [remPos, this]; exact h.hrem
+  hrems := h.hrems
+  hadd := by
+    have : s + (j - 1) + 1 = s + j := by omega
+    rw [addPos, this]; exact h.hadd
+  hrec := h.hrec
+  hQ := by have := h.hQ; omega
+
+theorem WInv.add {aa bb : List α} {s i j : Nat} {idx : Int} {st : Walk} {acc : List (Op α)}
+    (h : WInv aa bb s i j idx st acc) (hj0 : 0 < j) :
+    WInv aa bb s i (j-1) idx { st with adds := st.adds ++ [(j - 1, idx, st.rems)] }
+      (.add bb[j-1]! :: acc) where
+  hi := h.hi
+  hj := by have := h.hj; omega
+  hsrc := by rw [src, h.hsrc]
+  htgt := by rw [drop_pred_eq bb j hj0 h.hj, tgt, h.htgt]
+  hidx := h.hidx
+  hrem := by rw [remPos]; exact h.hrem
+  hrems := h.hrems
+  hadd := by
+    have : s + (j - 1) + 1 = s + j := by omega
+    rw [addPos, this, ← h.hadd]; simp
+  hrec := by
+    intro k hk
+    simp only [List.length_append, List.length_singleton] at hk
+    by_cases hk' : k < st.adds.length
+    · simp only [List.getElem_append_left hk']; exact h.hrec k hk'
+    · have hk2 : k = st.adds.length := by omega
+      subst hk2
+      simp only [List.getElem_append_right (Nat.le_refl _), Nat.sub_self, List.getElem_singleton]
+      have := h.hQ; have := h.hidx; omega
+  hQ := by have := h.hQ; simp only [List.length_append, List.length_singleton]; omega
+
+theorem WInv.rem {aa bb : List α} {s i j : Nat} {idx : Int} {st : Walk} {acc : List (Op α)}
+    (h : WInv aa bb s i j idx st acc) (hi0 : 0 < i) :
+    WInv aa bb s (i-1) j (idx-1)
+      { st with removes := st.removes ++ [idx - 1], rems := st.rems + 1 }
+      (.rem aa[i-1]! :: acc) where
+  hi := by have := h.hi; omega
+  hj := h.hj
+  hsrc := by rw [drop_pred_eq aa i hi0 h.hi, src, h.hsrc]
+  htgt := by rw [tgt, h.htgt]
+  hidx := by have := h.hidx; omega
+  hrem := by
+    have : s + (i - 1) + 1 = s + i := by omega
+    rw [remPos, this, List.reverse_cons, List.map_append, ← h.hrem]
+    have := h.hidx
+    simp only [List.map_cons, List.map_nil, List.append_cancel_left_eq, List.cons.injEq, and_true]
+    omega
+  hrems := by have := h.hrems; simp only [List.length_append, List.length_singleton]; omega
+  hadd := by rw [addPos]; exact h.hadd
+  hrec := h.hrec
+  hQ := by
+    have := h.hQ
+    show ((i - 1 : Nat) : Int) - j - st.adds.length + (st.rems + 1) = (aa.length : Int) - bb.length
+    omega
+
+variable [DecidableEq α]
+
+theorem walk_inv (aa bb : List α) (c : Nat → Nat → Nat) (s : Nat) :
+    ∀ fuel i j idx st acc, WInv aa bb s i j idx st acc → i + j < fuel →
+      ∃ ops idx', WInv aa bb s 0 0 idx' (walk aa.toArray bb.toArray c fuel i j idx st) ops := by
+  intro fuel
+  induction fuel with
+  | zero => intro i j idx st acc _ h; omega
+  | succ fuel ih =>
+    intro i j idx st acc h hf
+    unfold walk
+    simp only [List.getElem!_toArray]
+    split
+    · rename_i h1
+      exact ih _ _ _ _ _ (h.keep h1.1 h1.2.1 h1.2.2) (by omega)
+    · split
+      · rename_i h1 h2
+        exact ih _ _ _ _ _ (h.add h2.1) (by omega)
+      · split
+        · rename_i h1 h2 h3
+          exact ih _ _ _ _ _ (h.rem h3.1) (by omega)
+        · rename_i h1 h2 h3
+          have : i = 0 ∧ j = 0 := by omega
+          obtain ⟨rfl, rfl⟩ := this
+          exact ⟨acc, idx, h⟩
+
+end
+
+/-! ## from the final loop state to the emitted events; prefix/suffix trimming -/
+section
+open Script
+
+theorem map_range_getElem! [Inhabited α] {β : Type} (l : List α) (g : α → β) :
+    (List.range l.length).map (fun i => g l[i]!) = l.map g := by
+  apply List.ext_getElem
+  · simp
+  · intro i h1 h2
+    simp only [List.length_map, List.length_range] at h1
+    simp [List.getElem?_eq_getElem h1]
+
+section
+variable [Inhabited α]
+
+/-- the `add` events of `collectionDiff`, from the final loop state -/
+def addEvs (bb : List α) (w : Walk) : List (Ev α) :=
+  let l : Int := (w.adds.length : Int) - 1
+  (List.range w.adds.length).reverse.map fun i =>
+    let (bn, idx, r) := w.adds[i]!
+    Ev.add (bb.toArray[bn]!) (idx - w.rems + r + l - (i : Int))
+
+theorem addEvs_eq {aa bb : List α} {s : Nat} {idx : Int} {w : Walk} {ops : List (Op α)}
+    (h : WInv aa bb s 0 0 idx w ops) :
+    addEvs bb w = (addPos ops s).map (fun (v : α × Nat) => Ev.add v.1 (v.2 : Int)) := by
+  have h1 := h.hadd
+  simp only [Nat.add_zero] at h1
+  rw [← h1, List.map_map, List.map_reverse, addEvs, List.map_reverse]
+  congr 1
+  rw [← map_range_getElem! w.adds]
+  apply List.map_congr_left
+  intro k hk
+  simp only [List.mem_range] at hk
+  have h2 := h.hrec k hk
+  have h3 := h.hQ
+  rw [getElem!_pos w.adds k hk]
+  rcases hr : w.adds[k] with ⟨bn, ix, r⟩
+  rw [hr] at h2
+  simp only [List.getElem!_toArray, Function.comp] at h2 ⊢
+  congr 1
+  push_cast
+  omega
+
+end
+
+section
+variable [DecidableEq α]
+
+theorem trim_decomp (a b : List α) :
+    let s := commonPrefix a b
+    let t := commonPrefix (a.drop s).reverse (b.drop s).reverse
+    ∃ p q : List α, p.length = s ∧
+      a = p ++ (a.drop s).take (a.length - s - t) ++ q ∧
+      b = p ++ (b.drop s).take (b.length - s - t) ++ q := by
+  intro s t
+  refine ⟨a.take s, (a.drop s).drop (a.length - s - t), ?_, ?_, ?_⟩
+  · have := commonPrefix_le_left a b
+    simp only [List.length_take]; omega
+  · rw [List.append_assoc, List.take_append_drop, List.take_append_drop]
+  · have h1 : a.take s = b.take s := take_commonPrefix a b
+    have h2 := take_commonPrefix (a.drop s).reverse (b.drop s).reverse
+    rw [List.take_reverse, List.take_reverse] at h2
+    have h2 := List.reverse_inj.1 h2
+    simp only [List.length_drop] at h2
+    rw [h1, h2, List.append_assoc, List.take_append_drop, List.take_append_drop]
+
+variable [Inhabited α]
+
+theorem walk_events (aa bb : List α) (c : Nat → Nat → Nat) (s : Nat) :
+    let w := walk aa.toArray bb.toArray c (aa.length + bb.length + 1) aa.length bb.length
+      ((aa.length + s : Nat) : Int) {}
+    ∃ ops : List (Op α), src ops = aa ∧ tgt ops = bb ∧
+      w.removes.map Ev.remove ++ addEvs bb w =
+        (remPos ops s).reverse.map (fun (i : Nat) => Ev.remove (i : Int)) ++
+          (addPos ops s).map (fun (v : α × Nat) => Ev.add v.1 (v.2 : Int)) := by
+  intro w
+  obtain ⟨ops, idx', h⟩ := walk_inv aa bb c s _ _ _ _ _ _ (WInv.init aa bb s) (Nat.lt_succ_self _)
+  refine ⟨ops, by simpa using h.hsrc, by simpa using h.htgt, ?_⟩
+  rw [addEvs_eq h]
+  congr 1
+  show (walk _ _ _ _ _ _ _ _).removes.map Ev.remove = _
+  rw [h.hrem]; simp
+end
+end
+
+end GoRes.Diff
